@@ -82,7 +82,9 @@ CHECKS = {
         "bounds": {}, "assumptions": [],
     },
     "C10": {
-        "runs": [dict(STORAGE, entries=["H10MemStep"], bounds_quick={"recs": 2, "namelen": 3, "maxver": 9}, bounds_thorough={"recs": 2, "namelen": 4, "maxver": 99})],
+        "runs": [dict(STORAGE, entries=["H10MemStep"], bounds_quick={"recs": 2, "namelen": 3, "maxver": 9}, bounds_thorough={"recs": 2, "namelen": 4, "maxver": 99}),
+                 dict(pkg="./pkg/storage/driver", files=["pkg/storage/driver/h_c10_backends.go"], entries=["H10Backends"],
+                      bounds_quick={"recs": 1, "maxver": 2, "labels": 4}, bounds_thorough={"recs": 2, "maxver": 3, "labels": 4})],
         "bounds": {}, "assumptions": [],
     },
     "C04": {
@@ -105,6 +107,7 @@ CHECKS = {
         "runs": [
             dict(STRVALS, entries=["H04SetFrame", "H20SetTypeConfusion", "H20SetDeep"], bounds_quick={"maxlen": 5, "deeplen": 3}, bounds_thorough={"maxlen": 6, "deeplen": 5}),
             dict(REPOPKG, entries=["H18Index"], bounds_quick={"entries": 2, "shapes": 6, "maxdigit": 3}, bounds_thorough={"entries": 3, "shapes": 6, "maxdigit": 9}),
+            dict(pkg="./pkg/storage/driver", files=["pkg/storage/driver/h_c10_backends.go"], entries=["H20Corrupt"]),
         ],
         "bounds": {},
         "assumptions": [],
